@@ -31,7 +31,7 @@ def translations(s, tier, seed):
     out = {'none': (0, 0, 0), 'generic': (12345, -54321, 777)}
     out['all-negative'] = tuple(-ext[i][1] - 1234 for i in range(3))
     out['far-positive'] = tuple(9900000 - ext[i][1] for i in range(3))
-    out['far-negative'] = tuple(-990000 - ext[i][0] for i in range(3))
+    out['far-negative'] = tuple(-985000 - ext[i][0] for i in range(3))     # hydrogens may stick out by ~1 A
     if seed:
         out['seed'] = gen.seed_offset(seed)
     return out
@@ -66,6 +66,11 @@ def inputs(tier):
     out += [dict(src='corpus', d=d) for d in corpus.clusters(tier)[:: (4 if tier == 'thorough' else 10)]]
     out += [dict(src='corpus', d=d) for d in corpus.cutouts(tier, radius=8.0)[:: (3 if tier == 'thorough' else 6)]]
     out += [dict(src='corpus', d=d) for d in corpus.windows(tier, k=5)[:: (2 if tier == 'thorough' else 8)]]
+    # COO-ARG exception path with the carboxylate approaching a guanidinium nitrogen rather than a hydrogen
+    for ks in (('CYS', 'ARG', 'C-'), ('ASP', 'ARG', 'GLU'), ('ARG', 'C-', 'ASP'), ('GLU', 'ARG', 'ARG')):
+        for layout in ('line', 'star'):
+            out.append(dict(src='corpus', d=corpus.cluster_desc(ks, layout, 3.0, 'deep')))
+    out.append(dict(src='corpus', d=corpus.cutout_desc('4DFR', 'B', 26, 8.0)))
     if tier == 'thorough':
         out += [dict(src='corpus', d=corpus.chain_desc('3SGB', 'I'))]
     return out
@@ -81,6 +86,9 @@ def plan(tier, seed):
                       '(input, motion) other than the identity whose record has a determinant or a non-zero desolvation term') % (
                           ' and 4 rotations x {none, all-negative, x~-990, seed}' if tier == 'quick' else ' plus {none, all-negative, x~-990, seed}'),
                 bounds=dict(inputs=len(ins), rotations=24), samples=[ins[0], ins[10]])
+
+
+LIGAND_GROUP_TYPES = ('NAR', 'NAM', 'F', 'Cl', 'OH', 'OP', 'O3', 'O2', 'SH', 'CG', 'C2N', 'OCO', 'N30', 'N31', 'N32', 'N33', 'NP1', 'N1', 'LG', 'ALG', 'BLG')
 
 
 class OrthoSeam:
@@ -231,9 +239,17 @@ def run_case(case, ctx, acc):
                 for nm, a, b in (('bonds', h0[0], h1[0]), ('groups', h0[1], h1[1]), ('bridges', h0[3], h1[3])):
                     if a != b:
                         v.append(('heavy-atom-%s-depend-on-pose' % nm, '%s differ: %s' % (nm, sorted(a ^ b if isinstance(a, set) else set(a) ^ set(b))[:3])))
-                for (k0, n0, b0, e0), (k1, n1, b1, e1) in zip(h0[2], h1[2]):
-                    if k0 != k1 or n0 != n1 or not cmp.close(b0, b1) or not cmp.close(e0, e1):
-                        v.append(('desolvation-depends-on-pose', '%s: (%s,%s,%r) vs %s: (%s,%s,%r)' % (k0, n0, b0, e0, k1, n1, b1, e1)))
+                d1 = {x[0]: x for x in h1[2]}
+                for (k0, n0, b0, e0) in h0[2]:
+                    if k0 not in d1:
+                        if k0.split(':')[-1] not in LIGAND_GROUP_TYPES:
+                            v.append(('heavy-atom-groups-depend-on-pose', '%s missing in the moved pose' % k0))
+                        else:
+                            acc.extra['ligand_group_identity_differs_between_poses(not claimed)'] += 1
+                        continue
+                    _, n1, b1, e1 = d1[k0]
+                    if n0 != n1 or not cmp.close(b0, b1) or not cmp.close(e0, e1):
+                        v.append(('desolvation-depends-on-pose', '%s: (%s,%s,%r) vs (%s,%s,%r)' % (k0, n0, b0, e0, n1, b1, e1)))
                         break
                 if amino and not rotamer and seam.calls == 0:
                     d = cmp.diff_records(r0, r1, tol=1e-9)
